@@ -29,4 +29,4 @@ for d in sorted(os.listdir(src)):
         print(d, tests, "ALARMS:" if res else "all 20 checks held", json.dumps(res)[:600] if res else "", flush=True)
     finally:
         sh("git -C /repo worktree remove --force %s" % wt); shutil.rmtree(wt, ignore_errors=True)
-json.dump(out, open(os.path.join(VERIF, "seeded", "equivalent_refactorings.json"), "w"), indent=1)
+json.dump(out, open(os.path.join(VERIF, "seeded", os.path.basename(src.rstrip("/")) + "_results.json"), "w"), indent=1)
